@@ -39,14 +39,22 @@ def norm(x):
     if isinstance(x, dict): return {k: norm(v) for k, v in x.items()}
     if isinstance(x, (list, tuple)): return [norm(v) for v in x]
     return x
-bad = 0; n=0; cerr=0
+import signal
+class TO(Exception): pass
+def _h(*a): raise TO()
+signal.signal(signal.SIGALRM, _h)
+bad = 0; n=0; cerr=0; hangs=[]
 for i, c in enumerate(cases, 1):
     gtxt = '\n'.join(f"{r['name']} = {render(r['exp'])} ;" for r in c['g']['rules'])
     text = ''.join(c['inp'])
+    signal.alarm(5)
     try:
         m = tatsu.compile(gtxt)
+    except TO:
+        hangs.append(('compile', i)); print('HANG compile', i); print(gtxt); continue
     except Exception as e:
         cerr += 1
+        signal.alarm(0)
         continue
     n += 1
     try:
@@ -55,9 +63,13 @@ for i, c in enumerate(cases, 1):
         got = ('fail', None)
     except RecursionError:
         got = ('rec', None)
+    except TO:
+        got = ('hang', None); hangs.append(('parse', i)); print('HANG parse', i); print(gtxt); print(repr(text))
+    signal.alarm(0)
     exp = ('ok', norm(conv(res[i]['v']))) if res[i]['ok'] else ('fail', None)
     if got != exp:
         bad += 1
         if bad <= 25:
             print('---', i); print(gtxt); print(repr(text)); print(' impl', got); print(' spec', exp)
+print('hangs', hangs)
 print('cases', n, 'mismatch', bad, 'compile errors', cerr)
